@@ -6,6 +6,7 @@ import (
 	"net"
 	"runtime"
 	"strings"
+	"sync"
 	"time"
 
 	quic "github.com/refraction-networking/uquic"
@@ -254,3 +255,95 @@ func RunDialSeries(opt Options, n int, ts TransferSpec, idle time.Duration, conn
 	}
 	return res
 }
+
+// RunDialSeriesOverlap dials n times in one world (same client transport, same spec value) without
+// closing anything in between: dial i+1 starts while the application script of connection i is still
+// running (1.5 RTT after it started), and all connections stay open until the last script has ended
+// and a further `idle` of virtual time has passed.
+func RunDialSeriesOverlap(opt Options, n int, ts TransferSpec, idle time.Duration, connIdxBase int) *SeriesResult {
+	res := &SeriesResult{}
+	verifhook.TakePoolViolations()
+	w, err := New(opt)
+	if err != nil {
+		res.WorldErr = err
+		return res
+	}
+	rtt := opt.RTT
+	if rtt == 0 {
+		rtt = 10 * time.Millisecond
+	}
+	ctx, cancel := context.WithTimeout(context.Background(), 120*time.Second)
+	res.Dials = make([]DialResult, n)
+	clients := make([]*quic.Conn, n)
+	servers := make([]*quic.Conn, n)
+	var wg sync.WaitGroup
+	for i := 0; i < n; i++ {
+		dr := &res.Dials[i]
+		dr.Index = i
+		if w.Wire != nil {
+			w.Wire.ResetOrdinals()
+		}
+		type acc struct {
+			c   *quic.Conn
+			err error
+		}
+		accCh := make(chan acc, 1)
+		actx, acancel := context.WithCancel(ctx)
+		go func() {
+			c, err := w.Accept(actx)
+			accCh <- acc{c, err}
+		}()
+		client, derr := w.Dial(ctx)
+		dr.DialErr = derr
+		if derr != nil {
+			acancel()
+		}
+		a := <-accCh
+		acancel()
+		dr.AcceptErr = a.err
+		clients[i], servers[i] = client, a.c
+		if derr == nil && a.err == nil {
+			wg.Add(1)
+			go func() {
+				defer wg.Done()
+				dr.Transfer = RunTransfer(ctx, client, a.c, connIdxBase+i, ts)
+				dr.Viols = append(dr.Viols, dr.Transfer.Viols...)
+			}()
+			time.Sleep(rtt + rtt/2)
+		}
+	}
+	wg.Wait()
+	if idle > 0 {
+		time.Sleep(idle)
+	}
+	for i := 0; i < n; i++ {
+		if clients[i] != nil && clients[i].Context().Err() != nil {
+			res.Dials[i].ClientCauseAfterIdle = context.Cause(clients[i].Context())
+		}
+		if servers[i] != nil && servers[i].Context().Err() != nil {
+			res.Dials[i].ServerCauseAfterIdle = context.Cause(servers[i].Context())
+		}
+	}
+	cancel()
+	for i := 0; i < n; i++ {
+		if clients[i] != nil {
+			clients[i].CloseWithError(0, "")
+		}
+		if servers[i] != nil {
+			servers[i].CloseWithError(0, "")
+		}
+	}
+	time.Sleep(200 * time.Millisecond)
+	res.FaultsApplied, _ = w.Router.FaultsApplied()
+	w.Close()
+	time.Sleep(3 * time.Second)
+	if w.Wire != nil {
+		res.Taps = w.Wire.Snapshot()
+	}
+	res.RouterLog = w.Router.Log
+	for _, v := range verifhook.TakePoolViolations() {
+		res.Dials[n-1].Viols = append(res.Dials[n-1].Viols, Viol{"pool|" + strings.ReplaceAll(v.What, " ", "-") + "|" + v.Kind, v.String()})
+	}
+	return res
+}
+
